@@ -29,6 +29,7 @@ structure Resp where
   status : Nat
   prob : String
   replayNonce : List String    -- the Replay-Nonce header fields of the response, in order (possibly empty strings)
+  body : String := ""          -- what a 2xx body says: `<status>/<member>/…` ("bad" = not JSON); opaque but for its status
 deriving DecidableEq, Repr
 
 /-- `nonceFromHeader` = `h.Get("Replay-Nonce")`: the first field only; the callers (`addNonce`,
@@ -74,12 +75,15 @@ inductive Err
   | ctx
   | noNonce                                 -- "acme: nonce not found"
   | exists_                                 -- ErrAccountAlreadyExists
+  | noAccount                               -- ErrNoAccount
+  | invalid                                 -- *AuthorizationError / *OrderError: the polled object became invalid
+  | other                                   -- an untyped error (e.g. a 2xx body that does not decode)
 deriving DecidableEq, Repr
 
 def maxNonces : Nat := 100
 
 /-- what a server with an exhausted script answers -/
-def defaultResp : Resp := ⟨418, "", []⟩
+def defaultResp : Resp := ⟨418, "", [], ""⟩
 
 /-- one round trip. A cancelled context never reaches the server. -/
 def serve (st : St) (r : Req) : St × Except Err Resp :=
@@ -213,39 +217,100 @@ def discover (cfg : Cfg) (st : St) : St × Except Err Unit :=
   | (st, .error e) => (st, .error e)
   | (st, .ok p) => ({ st with pool := addNonce st.pool p.nonce, dir := true }, .ok ())
 
+/-- one signed request of the public API: which key signs, where to, which statuses count as success,
+    whether the 2xx body is decoded, and which problem type is turned into another result -/
+structure Simple where
+  explicitKey : Bool          -- signed with a key given by the caller (JWK form), else account key (KID form if known)
+  needKid : Bool              -- the URL is the account URL: `accountKID` first, ErrNoAccount if unknown
+  url : String
+  ok : List Nat
+  decode : Bool               -- a 2xx body that is not JSON is an error
+  soft : String := ""         -- this problem type of an error reply …
+  softErr : Option Err := none --   … becomes this error (none = success)
+deriving DecidableEq, Repr
+
 /-- the public calls the harness drives -/
 inductive Call
   | discover
-  | revokeAuthz          -- RevokeAuthorization: POST authz, wants 200
-  | newOrder             -- AuthorizeOrder: POST order, wants 201
-  | accept               -- Accept: POST chal, wants 200 or 202
-  | getAuthz             -- GetAuthorization: POST-as-GET authz, wants 200
+  | simple (s : Simple)
   | register             -- Register: POST acct signed with the explicit account key, wants 200/201
+  | waitAuthz            -- WaitAuthorization: poll authz (200/202) until valid / invalid
+  | waitOrder            -- WaitOrder: poll order (200) until ready / valid / invalid
+  | createOrderCert      -- CreateOrderCert: finalize, WaitOrder unless already valid, fetch the chain
 deriving DecidableEq, Repr
 
 inductive Outcome
   | ok
+  | okBody (b : String)  -- success, the returned object was decoded from this body
   | err (e : Err)
 deriving DecidableEq, Repr
+
+/-- the `status` member of a body token -/
+def bodyStatus (b : String) : String := (b.splitOn "/").headD ""
+
+def kidURL : String := "acct/1"
+
+def runSimple (cfg : Cfg) (s : Simple) (st : St) : St × Outcome :=
+  let go (url : String) (st : St) : St × Outcome :=
+    match post cfg s.explicitKey url s.ok st with
+    | (st, .ok p) => if s.decode && p.body == "bad" then (st, .err .other) else (st, if s.decode then .okBody p.body else .ok)
+    | (st, .error (.status c pr)) =>
+      if s.soft != "" && pr == s.soft then
+        (st, match s.softErr with | none => .ok | some e => .err e)
+      else (st, .err (.status c pr))
+    | (st, .error e) => (st, .err e)
+  if s.needKid then
+    match accountKID cfg st with
+    | (st, true) => go kidURL st
+    | (st, false) => (st, .err .noAccount)
+  else go s.url st
+
+/-- `WaitAuthorization` / `WaitOrder`: POST-as-GET until the object reaches a final state. `fuel` bounds
+    the recursion (every round consumes a reply or fails; the top level passes script length + 1). -/
+def pollLoop (cfg : Cfg) (url : String) (ok : List Nat) (final : List String) (fuel : Nat) (st : St) : St × Outcome :=
+  match fuel with
+  | 0 => (st, .err .other)
+  | fuel + 1 =>
+    match post cfg false url ok st with
+    | (st, .error e) => (st, .err e)
+    | (st, .ok p) =>
+      if p.body == "bad" then pollLoop cfg url ok final fuel st          -- does not decode: skip and retry
+      else if bodyStatus p.body == "invalid" then (st, .err .invalid)
+      else if final.contains (bodyStatus p.body) then (st, .okBody p.body)
+      else pollLoop cfg url ok final fuel st
+
+def waitOrder (cfg : Cfg) (url : String) (st : St) : St × Outcome :=
+  pollLoop cfg url [200] ["ready", "valid"] (st.script.length + 1) st
 
 def runCall (cfg : Cfg) (st : St) (c : Call) : St × Outcome :=
   match discover cfg st with
   | (st, .error e) => (st, .err e)
   | (st, .ok ()) =>
-    let fin (r : St × Except Err Resp) : St × Outcome :=
-      match r with
-      | (st, .ok _) => (st, .ok)
-      | (st, .error e) => (st, .err e)
     match c with
     | .discover => (st, .ok)
-    | .revokeAuthz => fin (post cfg false "authz" [200] st)
-    | .newOrder => fin (post cfg false "order" [201] st)
-    | .accept => fin (post cfg false "chal" [200, 202] st)
-    | .getAuthz => fin (post cfg false "authz" [200] st)
+    | .simple s => runSimple cfg s st
     | .register =>
       match post cfg true acctURL [200, 201] st with
-      | (st, .ok p) => ({ st with kid := true }, if p.status == 200 then .err .exists_ else .ok)
+      | (st, .ok p) =>
+        if p.body == "bad" then (st, .err .other)
+        else ({ st with kid := true }, if p.status == 200 then .err .exists_ else .ok)
       | (st, .error e) => (st, .err e)
+    | .waitAuthz => pollLoop cfg "authz" [200, 202] ["valid"] (st.script.length + 1) st
+    | .waitOrder => waitOrder cfg "order" st
+    | .createOrderCert =>
+      match post cfg false "fin" [200] st with
+      | (st, .error e) => (st, .err e)
+      | (st, .ok p) =>
+        if p.body == "bad" then (st, .err .other) else
+        let r : St × Outcome := if bodyStatus p.body == "valid" then (st, .okBody p.body) else waitOrder cfg "loc" st
+        match r with
+        | (st, .okBody b) =>
+          if bodyStatus b != "valid" then (st, .err .invalid)
+          else
+            match post cfg false "cert" [200] st with
+            | (st, .ok q) => if q.body == "bad" then (st, .err .other) else (st, .okBody q.body)
+            | (st, .error e) => (st, .err e)
+        | r => r
 
 def runCalls (cfg : Cfg) (st : St) : List Call → St × List Outcome
   | [] => (st, [])
